@@ -230,6 +230,10 @@ def pow_model(it, a, b):
 def getattr_model(it, base, attr):
     if isinstance(base, VRef):
         h = it.ctx.deref(base)
+        if isinstance(h, HSymList) and attr == "maxlen":
+            return h.maxlen
+        if isinstance(h, HList) and attr == "maxlen":
+            return h.maxlen
         if isinstance(h, HObj) and h.cls.startswith("ext:") and attr not in h.fields:
             return BoundBuiltin(attr, base)
     if isinstance(base, VQty):
@@ -683,10 +687,14 @@ def ext_method(it, ref, h, name, args, kwargs):
                 raise PyRaise(exc)
         rs = spec.get("returns")
         if rs is None:
-            return None
-        if isinstance(rs, str):
-            return it.eval(it.engine.parse_clause(rs), efr)
-        return it.engine.make_sym(it.ctx, rs, fresh_name(name))
+            res = None
+        elif isinstance(rs, str):
+            res = it.eval(it.engine.parse_clause(rs), efr)
+        else:
+            res = it.engine.make_sym(it.ctx, rs, fresh_name(name))
+        if isinstance(h.fields.get("results"), VRef):
+            it.ctx.deref(h.fields["results"]).items.append(res)
+        return res
     if spec.get("is_async"):
         return Coro(run, label=f"{h.cls[4:]}.{name}")
     return run()
@@ -786,6 +794,25 @@ def call_ext(it, f: ExtRef, args, kwargs):
                 "AssertionError", "IndexError", "Exception", "BaseException", "CancelledError",
                 "TimeoutError", "StopIteration", "AttributeError", "ZeroDivisionError"):
         return ExcValue(last, tuple(args))
+    if n in ("bisect.bisect", "bisect.bisect_right", "bisect.bisect_left"):
+        return bisect_model(it, last, args, kwargs)
+    if n == "itertools.islice":
+        from . import symlist
+        seq = it.as_symbolic_iterable(args[0])
+        if isinstance(seq, SymSeq):
+            _use(it, "model:itertools.islice(seq, a, b) yields seq[a:b] (a, b >= 0)")
+            a = zof(it.unwrap(args[1]), "int")
+            b = zof(it.unwrap(args[2]), "int") if len(args) > 2 and args[2] is not None else seq.length
+            if it.ctx.branch(z3.Or(a < 0, b < 0), "islice with negative index"):
+                raise PyRaise("ValueError")
+            start = z3.If(a < seq.length, a, seq.length)
+            stop0 = z3.If(b < seq.length, b, seq.length)
+            stop = z3.If(stop0 < start, start, stop0)
+            return symlist.sub(it, seq, mk(start, "int"), mk(stop, "int"))
+        items = it.iterate_concrete(args[0])
+        return tuple(items[args[1]:args[2] if len(args) > 2 else None])
+    if n == "collections.deque":
+        return deque_model(it, args, kwargs)
     if n.startswith("asyncio."):
         r = call_asyncio(it, n[8:], args, kwargs)
         if r is not NotImplemented:
@@ -794,6 +821,69 @@ def call_ext(it, f: ExtRef, args, kwargs):
     if r is not NotImplemented:
         return r
     raise Unsupported(f"call to external {n}")
+
+
+def bisect_model(it, which, args, kwargs):
+    """bisect on a sequence sorted by key: the insertion point (right of equal keys, or left for bisect_left).
+    Sortedness of the sequence is the function's precondition and is checked at the call site."""
+    seq = it.as_symbolic_iterable(args[0])
+    x = args[1]
+    key = kwargs.get("key")
+    left = which == "bisect_left"
+    if not isinstance(seq, SymSeq):
+        raise Unsupported("bisect on a concrete sequence")
+    _use(it, "model:bisect.bisect(a, x, key) on a key-sorted sequence returns k with key(a[i]) <= x for i < k and "
+             "x < key(a[i]) for i >= k (bisect_left: < and >=)")
+    ctx = it.ctx
+    kf = (lambda e: it.call(key, [e], {})) if key is not None else (lambda e: e)
+    i = z3.Int(fresh_name("bi"))
+    j = z3.Int(fresh_name("bj"))
+    n = seq.length
+    # precondition: sorted by key
+    try:
+        srt = it.try_nofork(z3.And(0 <= i, i < j, j < n),
+                            lambda: it.truth(it.compare("LtE", kf(seq.get(i)), kf(seq.get(j)))))
+        srt = zbool(srt) if not isinstance(srt, bool) else z3.BoolVal(srt)
+        ctx.check(f"{ctx.function}::call[bisect].requires.sorted_by_key",
+                  z3.ForAll([i, j], z3.Implies(z3.And(0 <= i, i < j, j < n), srt)), kind="precondition")
+    except Infeasible:
+        pass
+    k = z3.Int(fresh_name("bisect"))
+    ctx.assume(z3.And(0 <= k, k <= n))
+    try:
+        lo = it.try_nofork(z3.And(0 <= i, i < k, i < n),
+                           lambda: it.truth(it.compare("Lt" if left else "LtE", kf(seq.get(i)), x)))
+        lo = zbool(lo) if not isinstance(lo, bool) else z3.BoolVal(lo)
+        ctx.assume(z3.ForAll([i], z3.Implies(z3.And(0 <= i, i < k), lo)))
+    except Infeasible:
+        pass
+    try:
+        hi = it.try_nofork(z3.And(k <= i, i < n, 0 <= i),
+                           lambda: it.truth(it.compare("GtE" if left else "Gt", kf(seq.get(i)), x)))
+        hi = zbool(hi) if not isinstance(hi, bool) else z3.BoolVal(hi)
+        ctx.assume(z3.ForAll([i], z3.Implies(z3.And(k <= i, i < n), hi)))
+    except Infeasible:
+        pass
+    return mk(k, "int")
+
+
+def deque_model(it, args, kwargs):
+    from . import symlist
+    maxlen = kwargs.get("maxlen", args[1] if len(args) > 1 else None)
+    _use(it, "model:collections.deque(iterable, maxlen=n) keeps the last min(len, n) items; append on a full deque drops the leftmost")
+    if not args or args[0] is None:
+        raise Unsupported("empty deque() construction (element shape unknown)")
+    seq = it.as_symbolic_iterable(args[0])
+    if not isinstance(seq, SymSeq):
+        raise Unsupported("deque() of a concrete sequence")
+    if maxlen is None:
+        return it.ctx.alloc(HSymList(seq, None))
+    ml = zof(it.unwrap(maxlen), "int")
+    if it.ctx.branch(ml < 0, "deque maxlen < 0"):
+        raise PyRaise("ValueError")
+    start = z3.If(seq.length > ml, seq.length - ml, 0)
+    kept = symlist.sub(it, seq, mk(start, "int"), mk(seq.length, "int"))
+    return it.ctx.alloc(HSymList(kept, maxlen))
 
 
 def call_asyncio(it, name, args, kwargs):
